@@ -647,7 +647,7 @@ class _Interp:
                 recv = _NOHOOK
             if isinstance(recv, self.PURE[e.func.attr]) and not isinstance(recv, bool):
                 args = [self.val(a, env) for a in e.args]
-                if all(isinstance(a, (str, int, type(None), tuple)) and not isinstance(a, bool) for a in args):
+                if all((isinstance(a, (str, int, type(None), tuple)) and not isinstance(a, bool)) or (e.func.attr == "join" and isinstance(a, list) and all(isinstance(x, str) for x in a)) for a in args):
                     try:
                         r = getattr(recv, e.func.attr)(*args)
                     except (ValueError, IndexError, KeyError, TypeError) as x:
@@ -1449,7 +1449,12 @@ def run(chk):
         chk.ob("O11.1", inst, fl == want_fl and mode_ok, init, f"{mattr} := {'?' if mv is MISSING else repr(mv)} (include list alone: {a_inc!r}, exclude list alone: {b_exc!r}); filters built: {fl}", key=key)
     # spec parsing, decided on VALUES end to end (option value -> filters of the processor): split on ':', the parts handed on verbatim (case preserved), one filter per item in list order
     SAMPLES = [("Bulk-EU", ("TaskNameFilter", "Bulk-EU")), ("type:followerStats", ("TaskOpTypeFilter", "followerStats")), ("tag:regionEU", ("TaskTagFilter", "regionEU")),
-               ("kind:x", ("raise", None)), ("a:b:c", ("raise", None)), ("Type:search", ("raise", None))]
+               ("kind:x", ("raise", None)), ("a:b:c", ("raise", None)), ("Type:search", ("raise", None)),
+               # the value is the text AFTER the colon, whatever characters it begins / ends with: values that begin or end with characters of the keyword, that repeat the keyword,
+               # that name the OTHER keyword, and a task NAME that spells a keyword (seeded/C11-m17: a character-set strip / a textual replace eats into such values)
+               ("type:put-pipeline-type", ("TaskOpTypeFilter", "put-pipeline-type")), ("tag:geo-agg-tag", ("TaskTagFilter", "geo-agg-tag")),
+               ("type:type", ("TaskOpTypeFilter", "type")), ("tag:tag", ("TaskTagFilter", "tag")), ("type:tag", ("TaskOpTypeFilter", "tag")), ("tag:type", ("TaskTagFilter", "type")),
+               ("type", ("TaskNameFilter", "type")), ("tag", ("TaskNameFilter", "tag"))]
 
     def parsed(items, as_include):
         kind, text, fields = init_state(items if as_include else None, None if as_include else items)
@@ -2278,6 +2283,7 @@ def run(chk):
     from rules.C02 import client_floor_rule
 
     client_floor_rule(chk, "O11.4", drv)
+    progress_reports_every_step(chk, repo, drv, "O11.4")
 
     # ---- O11.5 removing the completing leaf is handled ---------------------------------------------------------------------------------------------------------
     chk.rule("O11.5", "the code that removes a leaf from a parallel element (the function holding the shrink site and everything it calls on the processor, the element or the leaf) "
@@ -2331,6 +2337,137 @@ def run(chk):
                 f"no reference to `{role}` in {', '.join(sorted(source.qualname(f_) for f_ in sl))}: the leaf named by completed-by is removed like any other leaf and nothing else happens - "
                 "the join point of the element gets no completing client, remaining siblings that only end with their parent never end"),
                key=f"{_L}:{source.qualname(root)}:completing-leaf-removed")
+
+
+_OPAQUE = object()
+
+
+class _SinkInterp(_Interp):
+    """_Interp that RECORDS the expression-statement calls made on sink objects (console / progress reporters): (method name, evaluated positional arguments), in order"""
+
+    def __init__(self, repo, sinks):
+        super().__init__(repo)
+        self.sinks, self.calls, self.lost = sinks, [], False
+
+    def call(self, e, env):
+        try:
+            return super().call(e, env)
+        except _CannotRun as x:  # a followed helper that is not interpretable: its value is opaque (and whatever it would have reported is not seen: `lost`)
+            self.lost = True
+            raise minieval.CannotEval(str(x))
+
+    def stmt(self, s, env):
+        if isinstance(s, ast.Expr) and isinstance(s.value, ast.Call) and isinstance(s.value.func, ast.Attribute) and self.resolve(s.value, env) is None and not is_logging_stmt(s):
+            try:
+                recv = self.val(s.value.func.value, env)
+            except minieval.CannotEval:
+                recv = None
+            if any(recv is k_ for k_ in self.sinks):
+                args = []
+                for a in list(s.value.args) + [k_.value for k_ in s.value.keywords]:
+                    try:
+                        args.append(self.val(a, env))
+                    except minieval.CannotEval:
+                        args.append(_OPAQUE)  # built from something that is not modelled (a number formatted through round / sum ...): no statement about this argument
+                self.calls.append((s.value.func.attr, args))
+                return None
+        return super().stmt(s, env)
+
+    def val(self, e, env):
+        if isinstance(e, ast.BinOp) and isinstance(e.op, ast.Mod):
+            left = self.val(e.left, env)
+            if isinstance(left, str):  # printf-style formatting of a message, applied to the VALUES
+                right = self.val(e.right, env)
+                if isinstance(right, (str, int, float, tuple)) and all(isinstance(x, (str, int, float)) for x in (right if isinstance(right, tuple) else (right,))):
+                    try:
+                        return left % right
+                    except (TypeError, ValueError) as x:
+                        raise _Raised(f"{type(x).__name__} in {short(e, 50)}")
+                raise minieval.CannotEval(f"{short(e, 50)}: operand of the format not a plain value")
+        return super().val(e, env)
+
+
+def progress_reports_every_step(chk, repo, drv, rid):
+    """the driver REPORTS every remaining step: the progress routine (the Driver method that indexes the allocator's per-step entries by the step counter) is INTERPRETED on a
+    model run of three steps with the counter at each step index a step executes under (0 .. n-1: the counter starts at -1, the artificial initial join point, and is advanced
+    by one per join point), for both values of every boolean parameter and every setting of the attributes the constructor takes from the configuration (quiet ...). Under every
+    setting that reports any step at all, EVERY step index yields a message naming the tasks of exactly THAT step; with the counter at its initial value no step's tasks are named."""
+    DR = drv.cls("Driver")
+    dm = drv.methods(DR)
+    dinit = dm.get("__init__")
+    stores = [t.attr for m_ in dm.values() for n in walk_body(m_) if isinstance(n, ast.Assign) and isinstance(n.value, ast.Attribute) and n.value.attr == "tasks_per_joinpoint"
+              for t in n.targets if is_self_attr(t)]
+    counters = {n.target.attr for m_ in dm.values() for n in walk_body(m_) if isinstance(n, ast.AugAssign) and isinstance(n.op, ast.Add) and is_self_attr(n.target) and source.is_const(n.value, 1)}
+    counters &= {t.attr for m_ in dm.values() for n in walk_body(m_) if isinstance(n, ast.Assign) and u(n.value) == "-1" for t in n.targets if is_self_attr(t)}
+    if dinit is None or not stores or len(counters) != 1:
+        chk.unknown(rid, "progress report per step: the per-step entries stored from `<allocator>.tasks_per_joinpoint` / the step counter (initialised to -1, advanced by `+= 1`) are not recognised", DR)
+        return
+    attr, counter = stores[0], next(iter(counters))
+    routines = [m_ for m_ in dm.values() if any(isinstance(n, ast.Subscript) and is_self_attr(n.value, attr) and not isinstance(n.slice, ast.Slice) for n in walk_body(m_))]
+    if not routines:
+        chk.unknown(rid, f"progress report per step: no method of Driver indexes the per-step entries `self.{attr}`", DR)
+        return
+    R_ = minieval.Record
+    NAMES = [["s0-create"], ["s1-bulk", "s1-query"], ["s2-merge"]]
+    # what the constructor leaves on the driver: literal initial values are taken over; attributes taken from the configuration / collaborators stay open
+    init_vals = {}
+    for n in walk_body(dinit):
+        if isinstance(n, ast.Assign) and len(n.targets) == 1 and is_self_attr(n.targets[0]):
+            try:
+                init_vals[n.targets[0].attr] = minieval.ev(n.value, {})
+            except (minieval.CannotEval, TypeError, ValueError, KeyError, IndexError, AttributeError):
+                init_vals.pop(n.targets[0].attr, None)
+    for rt in routines:
+        reads = {n.attr for n in walk_body(rt) if isinstance(n, ast.Attribute) and is_self_attr(n) and isinstance(n.ctx, ast.Load)}
+        sink_attrs = {s_.value.func.value.attr for s_ in walk_body(rt) if isinstance(s_, ast.Expr) and isinstance(s_.value, ast.Call) and isinstance(s_.value.func, ast.Attribute)
+                      and is_self_attr(s_.value.func.value) and not is_logging_stmt(s_)} - {attr, counter}
+        sink_attrs = {a_ for a_ in sink_attrs if not isinstance(init_vals.get(a_), (list, dict, set))}
+        open_attrs = sorted(a_ for a_ in reads - sink_attrs - {attr, counter} - set(dm) if a_ not in init_vals)
+        flags = [p_ for p_ in params_of(rt)[1:]]
+        inst = f"{source.qualname(rt)}: every step index of a run is reported with the tasks of that step"
+        if not sink_attrs or len(open_attrs) + len(flags) > 4:
+            chk.unknown(rid, f"progress report per step: {source.qualname(rt)} has no reporter call on an attribute of the driver / too many open inputs ({open_attrs + flags})", rt)
+            continue
+
+        def named(k, setting, rt=rt, sink_attrs=sink_attrs, open_attrs=open_attrs, flags=flags, reads=reads):
+            """indices of the steps whose tasks a message names when the routine runs with the counter at k"""
+            sink = R_()
+            me = R_(**{a_: (json.loads(json.dumps(v_)) if isinstance(v_, (list, dict)) else v_) for a_, v_ in init_vals.items() if a_ in reads})
+            me.fields.update({a_: sink for a_ in sink_attrs})
+            me.fields.update(dict(zip(open_attrs, setting)))
+            me.fields[attr] = [[R_(name=x_) for x_ in row] for row in NAMES]
+            me.fields[counter] = k
+            it = _SinkInterp(repo, [sink])
+            it.invoke(rt, None, it.frame(drv, DR, me), True, argv=dict(zip(flags, setting[len(open_attrs):])))
+            texts = [a_ for _, args in it.calls for a_ in args if isinstance(a_, str)]
+            got_ = {i for i, row in enumerate(NAMES) if any(all(x_ in t_ for x_ in row) for t_ in texts)}
+            if not got_ and (it.lost or any(a_ is _OPAQUE for _, args in it.calls for a_ in args)):
+                raise _CannotRun(f"the reporter is called with arguments that are not evaluable (counter at {k})")
+            return got_
+
+        try:
+            bad, some = None, False
+            for setting in itertools.product((False, True), repeat=len(open_attrs) + len(flags)):
+                got = {k: named(k, setting) for k in (-1, 0, 1, 2)}
+                if not any(got[k] for k in (0, 1, 2)):
+                    continue  # a silent setting (quiet): nothing is reported for any step
+                some = True
+                desc = ", ".join(f"{a_}={v_}" for a_, v_ in zip(open_attrs + flags, setting))
+                for k in (0, 1, 2):
+                    if got[k] != {k} and bad is None:
+                        bad = (f"with {desc} and `self.{counter}` == {k} (step {k + 1} of 3 executing) " +
+                               ("no message names the tasks of that step" if not got[k] else f"the message names the tasks of step(s) {sorted(i + 1 for i in got[k])}") +
+                               f" while steps {sorted(j + 1 for j in (0, 1, 2) if got[j] == {j})} are reported: the driver executes the step without reporting it")
+                if got[-1] and bad is None:
+                    bad = f"with {desc} and `self.{counter}` == -1 (before the first step) the message names the tasks of step(s) {sorted(i + 1 for i in got[-1])}"
+            if not some:
+                chk.unknown(rid, f"progress report per step: {source.qualname(rt)} reports no step under any setting of {open_attrs + flags} on the model run", rt)
+                continue
+            chk.ob(rid, inst, bad is None, rt, bad or "", key=f"{_D}:{source.qualname(rt)}:every-step-reported")
+        except _Raised as e:
+            chk.ob(rid, inst, False, rt, f"raises {e.text} on a model run of three steps", key=f"{_D}:{source.qualname(rt)}:every-step-reported")
+        except (_CannotRun, minieval.CannotEval) as e:
+            chk.unknown(rid, f"progress report per step: {source.qualname(rt)} is not interpretable on a model run of three steps: {e}", rt)
 
 
 def completing_role(repo, ldr, tinit):
@@ -2881,4 +3018,27 @@ VARIANTS += [
     V("leaves taken into a local first, no guard", "keep", _L, _LQ, _lq(None)),
     V("leaves taken into a local first, pass guarded by `if leaf_tasks`", "keep", _L, _LQ, _lq("leaf_tasks")),
     V("leaf pass guarded by a test that holds for every parallel element with sub-tasks", "keep", _L, _LQ, _lq("not isinstance(task, Parallel) or len(task.tasks) >= 1", over="task", pre="")),
+]
+
+# ---- strengthening round 6 (seeded/C11-m17, C11-m18): the value of a type: / tag: filter is the text after the colon whatever characters it begins / ends with (spec parsing decided
+# on values that begin / end with characters of the keyword, repeat it, name the other keyword); the progress routine of the driver, interpreted on a model run of three steps, names
+# the tasks of exactly the executing step for EVERY step index (and of no step before the first join point)
+_PG = "        if not self.quiet and self.current_step >= 0:\n"
+VARIANTS += [
+    V("seed m17: operation type taken with str.lstrip('type:')", "break", _L, "track.TaskOpTypeFilter(spec[1])", "track.TaskOpTypeFilter(t.lstrip(\"type:\"))", "O11.1"),
+    V("seed m17: tag taken with str.lstrip('tag:')", "break", _L, "track.TaskTagFilter(spec[1])", "track.TaskTagFilter(t.lstrip(\"tag:\"))", "O11.1"),
+    V("tag taken by deleting the keyword everywhere in the item", "break", _L, "track.TaskTagFilter(spec[1])", "track.TaskTagFilter(t.replace(\"tag\", \"\")[1:])", "O11.1"),
+    V("operation type taken with str.strip(':epyt')", "break", _L, "track.TaskOpTypeFilter(spec[1])", "track.TaskOpTypeFilter(t.strip(\":epyt\"))", "O11.1"),
+    V("operation type cut at the wrong offset", "break", _L, "track.TaskOpTypeFilter(spec[1])", "track.TaskOpTypeFilter(t[len(\"tag:\"):])", "O11.1"),
+    V("tag taken as a slice behind the prefix", "keep", _L, "track.TaskTagFilter(spec[1])", "track.TaskTagFilter(t[len(\"tag:\"):])"),
+    V("operation type taken with str.removeprefix", "keep", _L, "track.TaskOpTypeFilter(spec[1])", "track.TaskOpTypeFilter(t.removeprefix(\"type:\"))"),
+    V("tag taken with str.partition", "keep", _L, "track.TaskTagFilter(spec[1])", "track.TaskTagFilter(t.partition(\":\")[2])"),
+    V("seed m18: the first step is never reported (counter > 0)", "break", _D, _PG, "        if not self.quiet and self.current_step > 0:\n", "O11.4"),
+    V("the first step is never reported (counter truthy)", "break", _D, _PG, "        if not self.quiet and self.current_step:\n", "O11.4"),
+    V("progress message names the tasks of the previous step", "break", _D, "self.tasks_per_join_point[self.current_step]])", "self.tasks_per_join_point[self.current_step - 1]])", "O11.4"),
+    V("progress message before the first join point names the last step", "break", _D, _PG, "        if not self.quiet and self.current_step >= -1:\n", "O11.4"),
+    V("progress guard respelled (counter > -1)", "keep", _D, _PG, "        if not self.quiet and self.current_step > -1:\n"),
+    V("progress guard respelled (early return, counter != -1)", "keep", _D, _PG, "        if self.quiet or self.current_step == -1:\n            return\n        if True:\n"),
+    V("task names joined through a generator over a local", "keep", _D, "tasks = \",\".join([t.name for t in self.tasks_per_join_point[self.current_step]])",
+      "step_tasks = self.tasks_per_join_point[self.current_step]\n            tasks = \",\".join(t.name for t in step_tasks)"),
 ]
